@@ -52,6 +52,9 @@ CHECKS = {
  "C19": (True, "E1", "exploration", E1 + "; exact rational parameters, symbolic samples for the resampler",
   "Every generator over its parameter alphabet in exact Q arithmetic: line (8 durations x 5x5 values x finish), ones/zeros/impulse/fades (12 durations incl. None/inf), adsr/attack (constant and stream sustain), noise with an owned random source, modulo_counter over 4 starts x 3 moduli x 9 steps (negative, zero, multiples of the modulo, both internal paths) x all 8 numbers-vs-streams combinations x constant/varying streams and the end-with-shortest-stream rule, TableLookup oscillator/getitem/operators/harmonize/normalize, sinusoid (tolerance for sin only), karplus_strong vs the linearised comb, resample on symbolic inputs of length 0..10 (14) x 7 ratios x orders 0..3 x constant/stream ratios against window-placement + Lagrange basis written from the statement.",
   "Parameter alphabets; modulo streams constant; closed forms excluded where they divide by zero."),
+ "C20": (True, "E1", "exploration", E1 + "; symbolic samples for the linear tools",
+  "Moving averages (deque, recursive/feedback, fir) x sizes 1..8 x five zero kinds x lengths on symbolic input against the windowed mean (exact for power-of-two sizes, 4 ulp per coefficient otherwise), one filter object applied to two signals consumed in interleaved orders, all accumulate strategies on symbolic input incl. the empty input; amdf and the three envelope strategies on all sequences of length <=5 (6) over {-2,-1,0,1/2,1,3}; clip (all 16 limit pairs, idempotence, inverted limits), zcross (3 hysteresis x 6 first_sign values against a reference sign automaton) and unwrap (5 (max_delta, step) pairs: multiples of step, untouched when no jump, bounded adjacent jumps) on all sequences of length <=6 (7).",
+  "Sample alphabet for the non-linear tools; float 1./size rounding bounded, not exact, for non-power-of-two sizes."),
 }
 
 NOT_YET = "check not built yet in this session; see DESIGN.md section 4 for the planned model-checking harness"
